@@ -293,11 +293,141 @@ def _front_facts(tree, fname, per):
             empty = (L.unparse(e.body), L.unparse(e.orelse))
     if empty is None:
         raise NotRecognised("%s: `return {} if %s else None` not found" % (fname, per))
-    src = L.unparse(fn)
-    zipsum = ("sum(x) for x in zip(*rawdict.values())" in src)
-    if not zipsum:
-        raise NotRecognised("%s: total is not sum(x) for x in zip(*rawdict.values())" % fname)
     return empty
+
+
+def _front_total(tree, fname, per):
+    """the system-wide branch `return CTOR(*(R(x) for x in S))` → (R, unparse(S))"""
+    fn = L.find_def(tree, fname)
+    found = []
+    for n in ast.walk(fn):
+        if isinstance(n, ast.If) and L.dotted(n.test) == per and n.orelse:
+            rets = [s for s in n.orelse if isinstance(s, ast.Return)]
+            if len(rets) != 1 or len(n.orelse) != 1:
+                raise NotRecognised("%s: else branch of `if %s` is not a single return" % (fname, per))
+            found.append(rets[0].value)
+            body = [L.unparse(s) for s in n.body]
+            if len(n.body) != 2 or not isinstance(n.body[0], ast.For) or body[1] != "return rawdict":
+                raise NotRecognised("%s: per-device branch shape" % fname)
+            loop = n.body[0]
+            if L.unparse(loop.iter) != "rawdict.items()" or len(loop.body) != 1:
+                raise NotRecognised("%s: per-device loop" % fname)
+            st = loop.body[0]
+            tgt = _names(loop.target)
+            ok = (isinstance(st, ast.Assign) and L.unparse(st.targets[0]) == "rawdict[%s]" % tgt[0]
+                  and isinstance(st.value, ast.Call) and len(st.value.args) == 1 and not st.value.keywords
+                  and isinstance(st.value.args[0], ast.Starred) and L.dotted(st.value.args[0].value) == tgt[1])
+            if not ok:
+                raise NotRecognised("%s: per-device statement is not rawdict[k] = nt(*fields)" % fname)
+    if len(found) != 1:
+        raise NotRecognised("%s: `if %s: … else: return …` not found exactly once" % (fname, per))
+    call = found[0]
+    if not (isinstance(call, ast.Call) and len(call.args) == 1 and not call.keywords
+            and isinstance(call.args[0], ast.Starred)):
+        raise NotRecognised("%s: total is not CTOR(*…)" % fname)
+    comp = call.args[0].value
+    if not (isinstance(comp, (ast.GeneratorExp, ast.ListComp)) and len(comp.generators) == 1):
+        raise NotRecognised("%s: total argument is not a single-generator comprehension" % fname)
+    g = comp.generators[0]
+    if g.ifs or g.is_async or not isinstance(g.target, ast.Name):
+        raise NotRecognised("%s: comprehension has a filter / tuple target" % fname)
+    e = comp.elt
+    if not (isinstance(e, ast.Call) and isinstance(e.func, ast.Name) and len(e.args) == 1 and not e.keywords
+            and L.dotted(e.args[0]) == g.target.id):
+        raise NotRecognised("%s: comprehension element is not R(x)" % fname)
+    return (e.func.id, L.unparse(g.iter))
+
+
+def _sysfs_facts(tree):
+    """read_sysfs + the choice of the generator in _pslinux.disk_io_counters"""
+    fn = L.find_def(tree, "disk_io_counters")
+    inner = [n for n in fn.body if isinstance(n, ast.FunctionDef) and n.name == "read_sysfs"]
+    if not inner:
+        raise NotRecognised("read_sysfs not found")
+    rs = inner[0]
+    if len(rs.body) != 1 or not isinstance(rs.body[0], ast.For):
+        raise NotRecognised("read_sysfs: body is not one for loop")
+    outer = rs.body[0]
+    it = outer.iter
+    if not (isinstance(it, ast.Call) and L.dotted(it.func) == "os.listdir" and len(it.args) == 1 and not it.keywords
+            and isinstance(L.const(it.args[0]), str) and isinstance(outer.target, ast.Name)):
+        raise NotRecognised("read_sysfs: outer loop is not `for block in os.listdir('<dir>')`")
+    root = L.const(it.args[0])
+    if len(outer.body) != 1 or not isinstance(outer.body[0], ast.For):
+        raise NotRecognised("read_sysfs: inner loop")
+    walk = outer.body[0]
+    if L.unparse(walk.iter) != "os.walk(os.path.join(%r, %s))" % (root, outer.target.id):
+        raise NotRecognised("read_sysfs: inner loop iterates over %s" % L.unparse(walk.iter))
+    tgt = walk.target
+    if not (isinstance(tgt, ast.Tuple) and len(tgt.elts) == 3 and all(isinstance(e, ast.Name) for e in tgt.elts)):
+        raise NotRecognised("read_sysfs: walk target")
+    rootv, _, filesv = [e.id for e in tgt.elts]
+    body = walk.body
+    if len(body) != 5:
+        raise NotRecognised("read_sysfs: %d statements in the walk loop" % len(body))
+    t = body[0]
+    if not (isinstance(t, ast.If) and isinstance(t.test, ast.Compare) and len(t.test.ops) == 1
+            and isinstance(t.test.ops[0], ast.NotIn) and isinstance(L.const(t.test.left), str)
+            and L.dotted(t.test.comparators[0]) == filesv and len(t.body) == 1 and isinstance(t.body[0], ast.Continue)
+            and not t.orelse):
+        raise NotRecognised("read_sysfs: `if '<file>' not in files: continue` not found")
+    stat = L.const(t.test.left)
+    w = body[1]
+    if not (isinstance(w, ast.With) and len(w.items) == 1
+            and L.unparse(w.items[0].context_expr) == "open_text(os.path.join(%s, %r))" % (rootv, stat)
+            and isinstance(w.items[0].optional_vars, ast.Name) and len(w.body) == 1
+            and L.unparse(w.body[0]) == "fields = %s.read().strip().split()" % w.items[0].optional_vars.id):
+        raise NotRecognised("read_sysfs: open/read statement")
+    if L.unparse(body[2]) != "name = os.path.basename(%s)" % rootv:
+        raise NotRecognised("read_sysfs: name = %s" % L.unparse(body[2]))
+    a = body[3]
+    if not (isinstance(a, ast.Assign) and len(a.targets) == 1 and isinstance(a.targets[0], ast.Tuple) and _is_map_int(a.value)):
+        raise NotRecognised("read_sysfs: unpack statement")
+    sl = a.value.args[1]
+    if not (isinstance(sl, ast.Subscript) and L.dotted(sl.value) == "fields" and isinstance(sl.slice, ast.Slice)
+            and sl.slice.lower is None and sl.slice.step is None and sl.slice.upper is not None):
+        raise NotRecognised("read_sysfs: map(int, …) argument is not fields[:k]")
+    take = L.const(sl.slice.upper)
+    unpack = _names(a.targets[0])
+    y = body[4]
+    if not (isinstance(y, ast.Expr) and isinstance(y.value, ast.Yield)):
+        raise NotRecognised("read_sysfs: yield")
+    ynames = _names(y.value.value)
+    if ynames[0] != "name":
+        raise NotRecognised("read_sysfs: yield tuple does not start with name")
+    # the choice of the generator
+    chain = [n for n in fn.body if isinstance(n, ast.If) and L.unparse(n.test).startswith("os.path.exists(")]
+    if len(chain) != 1:
+        raise NotRecognised("disk_io_counters: source selection chain not found")
+    node = chain[0]
+    sources = []
+    while True:
+        c = node.test
+        if not (isinstance(c, ast.Call) and L.dotted(c.func) == "os.path.exists" and len(c.args) == 1):
+            raise NotRecognised("source selection test: %s" % L.unparse(c))
+        arg = c.args[0]
+        if isinstance(arg, ast.JoinedStr):
+            path = "".join(v.value if isinstance(v, ast.Constant) else "{%s}" % L.unparse(v.value) for v in arg.values)
+        else:
+            path = L.const(arg)
+        if len(node.body) != 1 or not L.unparse(node.body[0]).startswith("gen = "):
+            raise NotRecognised("source selection body")
+        call = node.body[0].value
+        if not (isinstance(call, ast.Call) and isinstance(call.func, ast.Name) and not call.args):
+            raise NotRecognised("source selection body")
+        sources.append((call.func.id, path))
+        if len(node.orelse) == 1 and isinstance(node.orelse[0], ast.If):
+            node = node.orelse[0]
+            continue
+        raises = [s_ for s_ in node.orelse if isinstance(s_, ast.Raise)]
+        if not raises or not isinstance(raises[-1].exc, ast.Call):
+            raise NotRecognised("source selection: final else does not raise")
+        nosrc = L.dotted(raises[-1].exc.func)
+        break
+    return {"root": root, "stat": stat, "take": take, "unpack": unpack, "yield": ynames[1:], "sources": sources,
+            "nosrc": nosrc,
+            "shape": [root, L.unparse(walk.iter), L.unparse(t.test), L.unparse(w.items[0].context_expr),
+                      L.unparse(w.body[0]), L.unparse(body[2])]}
 
 
 def _usage_facts(tree):
@@ -394,6 +524,7 @@ def facts(snap, F):
     disk = lambda: get("disk", lambda: _disk_facts(lin))
     stor = lambda: get("stor", lambda: _storage_facts(lin))
     usage = lambda: get("usage", lambda: _usage_facts(posix))
+    sysfs = lambda: get("sysfs", lambda: _sysfs_facts(lin))
 
     def runtime():
         return get("rt", lambda: _runtime(snap))
@@ -445,8 +576,27 @@ def facts(snap, F):
         n = _front_facts(init, "net_io_counters", "pernic")
         return L.lean_list([d[0], d[1], n[0], n[1]], L.lean_str)
     F.try_add("frontEmpty", "List String", empties,
-              "what the front ends return for an empty raw dict: [disk perdisk, disk total, net pernic, net total]; "
-              "both totals are `sum(x) for x in zip(*rawdict.values())`")
+              "what the front ends return for an empty raw dict: [disk perdisk, disk total, net pernic, net total]")
+
+    def totals():
+        d = _front_total(init, "disk_io_counters", "perdisk")
+        n = _front_total(init, "net_io_counters", "pernic")
+        return L.lean_list([d, n], lambda rs: L.lean_pair(L.lean_str(rs[0]), L.lean_str(rs[1])))
+    F.try_add("frontTotal", "List (String × String)", totals,
+              "system-wide branch of the front ends [disk, net]: `return CTOR(*(R(x) for x in S))` as (R, S); the "
+              "per-device branch is `for k, fields in rawdict.items(): rawdict[k] = CTOR(*fields)`")
+    F.try_add("sysfsShape", "List String", lambda: _strs(sysfs()["shape"]),
+              "read_sysfs: directory listed, walk expression, membership test, open expression, read statement, name statement")
+    F.try_add("sysfsStatName", "List Nat", lambda: L.lean_bytes(os.fsencode(sysfs()["stat"])),
+              "read_sysfs: the file read in every walked directory (file-system encoding of the literal)")
+    F.try_add("sysfsTake", "Nat", lambda: L.lean_nat(sysfs()["take"]), "read_sysfs: `map(int, fields[:k])`")
+    F.try_add("sysfsUnpack", "List String", lambda: _strs(sysfs()["unpack"]), "read_sysfs: names on the left of the unpack")
+    F.try_add("sysfsYield", "List String", lambda: _strs(sysfs()["yield"]), "read_sysfs: the yielded tuple after `name`")
+    F.try_add("diskSources", "List (String × String)",
+              lambda: L.lean_list(sysfs()["sources"], lambda c: L.lean_pair(L.lean_str(c[0]), L.lean_str(c[1]))),
+              "_pslinux.disk_io_counters: `if os.path.exists(P1): gen = G1() elif os.path.exists(P2): gen = G2() else: raise` as [(G, P)]")
+    F.try_add("diskNoSource", "String", lambda: L.lean_str(sysfs()["nosrc"]),
+              "_pslinux.disk_io_counters: the exception raised when no source exists")
     F.try_add("usageAssigns", "List (String × String × String × String)",
               lambda: L.lean_list(usage()["assigns"], lambda a: "(%s)" % ", ".join(L.lean_str(x) for x in a)),
               "disk_usage: `var = lhs op rhs` assignments in order (st.<attr> = field of os.statvfs(path))")
@@ -494,21 +644,55 @@ class Impl:
         self.ps = ctx.psutil
         self.lin = self.ps._pslinux
         self.fp = FakeProc(self.ps, prefix="psv-c09-proc-")
-        self.sysroot = tempfile.mkdtemp(prefix="psv-c09-sys-")
+        # every redirected /sys lives under one parent; `cur_sysroot` is the one the next call sees
+        self.sysparent = tempfile.mkdtemp(prefix="psv-c09-sys-")
+        self.sysroot = os.path.join(self.sysparent, "default")
         self.sysblock = os.path.join(self.sysroot, "sys", "block")
         os.makedirs(self.sysblock)
+        self.cur_sysroot = self.sysroot
+        self.nroots = 0
         self.real_access = os.access
         self.real_statvfs = os.statvfs
+        self.real_exists = os.path.exists
+        self.real_listdir = os.listdir
+        self.real_walk = os.walk
         self.next_st = None
         self.access_log = 0
-        real_access, sysroot = self.real_access, self.sysroot
+        self.sysfs_log = 0
+        real_access, real_exists, real_listdir, real_walk = os.access, os.path.exists, os.listdir, os.walk
+
+        def is_sys(path):
+            return isinstance(path, str) and (path == "/sys/block" or path.startswith("/sys/block/"))
 
         def access(path, mode, **kw):
             # only the hard-coded /sys/block/... probes of is_storage_device are redirected
             if isinstance(path, str) and path.startswith("/sys/block/"):
                 self.access_log += 1
-                return real_access(sysroot + path, mode, **kw)
+                return real_access(self.cur_sysroot + path, mode, **kw)
             return real_access(path, mode, **kw)
+
+        # read_sysfs: os.path.exists('/sys/block'), os.listdir('/sys/block'), os.walk('/sys/block/<dev>') are
+        # redirected into the same tree (the roots os.walk yields are then real paths: open_text() is not touched)
+        def exists(path):
+            if is_sys(path):
+                self.sysfs_log += 1
+                return real_exists(self.cur_sysroot + path)
+            return real_exists(path)
+
+        def listdir(path="."):
+            if is_sys(path):
+                self.sysfs_log += 1
+                return real_listdir(self.cur_sysroot + path)
+            return real_listdir(path)
+
+        def walk(top, *a, **kw):
+            if is_sys(top):
+                self.sysfs_log += 1
+                return real_walk(self.cur_sysroot + top, *a, **kw)
+            return real_walk(top, *a, **kw)
+        os.path.exists = exists
+        os.listdir = listdir
+        os.walk = walk
 
         def statvfs(path):
             if self.next_st is not None and path == "/psv-c09-mount":
@@ -520,14 +704,79 @@ class Impl:
     def close(self):
         os.access = self.real_access
         os.statvfs = self.real_statvfs
+        os.path.exists = self.real_exists
+        os.listdir = self.real_listdir
+        os.walk = self.real_walk
         self.fp.close()
-        shutil.rmtree(self.sysroot, ignore_errors=True)
+        shutil.rmtree(self.sysparent, ignore_errors=True)
 
     def set_sysblock(self, entries):
-        for n in os.listdir(os.fsencode(self.sysblock)):
-            os.rmdir(os.path.join(os.fsencode(self.sysblock), n))
+        shutil.rmtree(self.sysblock, ignore_errors=True)
+        os.makedirs(self.sysblock)
         for e in entries:
             os.mkdir(os.path.join(os.fsencode(self.sysblock), bytes(e)))
+
+    # ---- whole /sys/block trees (read_sysfs)
+    def _build(self, base, node):
+        p = os.path.join(base, bytes.fromhex(node["name"]))
+        os.mkdir(p)
+        for fn, content in node["files"]:
+            with open(os.path.join(p, bytes.fromhex(fn)), "wb") as f:
+                f.write(bytes.fromhex(content))
+        for sub in node["subs"]:
+            self._build(p, sub)
+
+    def _readback(self, p):
+        """the directory as os.scandir lists it (= the order os.listdir / os.walk will see)"""
+        files, subs = [], []
+        with os.scandir(p) as it:
+            entries = list(it)
+        for e in entries:
+            if e.is_dir(follow_symlinks=False):
+                subs.append(self._readback(e.path))
+            else:
+                with open(e.path, "rb") as f:
+                    files.append([e.name.hex(), f.read().hex()])
+        return {"name": os.path.basename(p).hex(), "files": files, "subs": subs}
+
+    def materialise(self, tree):
+        """tree (list of nodes, or None = /sys/block does not exist) → (root holding sys/block, the tree in listing order)"""
+        self.nroots += 1
+        root = os.path.join(self.sysparent, "w%d" % self.nroots)
+        os.makedirs(os.path.join(root, "sys"))
+        if tree is None:
+            return root, None
+        blk = os.fsencode(os.path.join(root, "sys", "block"))
+        os.mkdir(blk)
+        for node in tree:
+            self._build(blk, node)
+        return root, self._readback(blk)["subs"]
+
+    def disk_world(self, diskstats, tree, perdisk, nowrap=False, sysdir=None):
+        """psutil.disk_io_counters in a world with/without {procfs}/diskstats and with/without /sys/block"""
+        if diskstats is None:
+            self.fp.remove("diskstats")
+        else:
+            self.fp.write("diskstats", diskstats)
+        if sysdir is None or not os.path.isdir(sysdir):
+            sysdir, _ = self.materialise(tree)
+        self.cur_sysroot = sysdir
+        try:
+            if nowrap:
+                self.ps.disk_io_counters.cache_clear()
+            return self._call(self.ps.disk_io_counters, perdisk=perdisk, nowrap=nowrap)
+        finally:
+            self.cur_sysroot = self.sysroot
+            shutil.rmtree(sysdir, ignore_errors=True)
+
+    def ints(self, toks):
+        out = []
+        for t in toks:
+            try:
+                out.append(int(os.fsdecode(bytes(t))))
+            except ValueError:
+                out.append("ValueError")
+        return out
 
     def _canon(self, r):
         if r is None:
@@ -749,7 +998,7 @@ def render_net_line(name, cols):
 def gen_netraw_case(rng):
     """malformed / corner-case /proc/net/dev contents (model-only comparison)"""
     fam = rng.choice(["nocolon", "short", "long", "nonnum", "blank", "emptyname", "crlf", "noheader", "oneheader",
-                      "empty", "dup", "nofinalnl", "tabs", "leadzero"])
+                      "empty", "dup", "nofinalnl", "tabs", "leadzero", "signed", "negative", "unispace"])
     rows = [(rng.choice([b"lo", b"eth0", b"eth0:1", b"w"]), distinct_row(rng, 16, "small", k)) for k in range(rng.randrange(1, 4))]
     lines = [H1, H2] + [render_net_line(n, c) for n, c in rows]
     end = b"\n"
@@ -784,6 +1033,15 @@ def gen_netraw_case(rng):
         lines.append(b"\teth9:\t" + b"\t".join(b"%d" % i for i in range(1, 17)) + b"\t")
     elif fam == "leadzero":
         lines.append(b"eth9:" + b" ".join(b"00%d" % i for i in range(1, 17)))
+    elif fam in ("signed", "negative"):
+        toks = [b"%d" % i for i in range(1, 17)]
+        for _ in range(3):
+            toks[rng.randrange(16)] = rng.choice([b"+5", b"1_000", b"-0", b"0_1", b"+0_0"])
+        if fam == "negative":
+            toks[rng.randrange(16)] = rng.choice([b"-5", b"-1_0"])
+        lines.append(b"  eth9: " + b" ".join(toks))
+    elif fam == "unispace":
+        lines.append(b"  eth9: " + rng.choice([b"\xc2\xa0", b"\xe2\x80\x83"]).join(b"%d" % i for i in range(1, 17)))
     data = end.join(lines) + (b"" if fam == "nofinalnl" or not lines else end)
     return {"op": "netraw", "file": data.hex(), "pernic": rng.random() < 0.6}, {"fam": fam}
 
@@ -795,7 +1053,8 @@ def disk_line(major, minor, name, nums, name_idx=2):
 
 
 def gen_diskraw_case(rng):
-    fam = rng.choice(["flen", "flen", "nonnum", "blank", "dup", "crlf", "empty", "tabs", "nofinalnl", "dotname"])
+    fam = rng.choice(["flen", "flen", "nonnum", "blank", "dup", "crlf", "empty", "tabs", "nofinalnl", "dotname", "signed",
+                      "negative", "unispace"])
     sys = [b"sda", b"sdb"]
     lines = [disk_line(8, 0, b"sda", distinct_row(rng, 11, "small", 1)),
              disk_line(8, 1, b"sda1", distinct_row(rng, 11, "small", 2))]
@@ -823,12 +1082,173 @@ def gen_diskraw_case(rng):
         lines = []
     elif fam == "tabs":
         lines.append(b"\t8\t16\tsdb\t" + b"\t".join(b"%d" % v for v in distinct_row(rng, 11, "small", 4)))
+    elif fam in ("signed", "negative"):
+        nums = [b"%d" % v for v in distinct_row(rng, 11, "small", 3)]
+        for _ in range(3):
+            nums[rng.randrange(11)] = rng.choice([b"+5", b"1_000", b"-0", b"0_1", b"007"])
+        if fam == "negative":
+            nums[rng.randrange(11)] = rng.choice([b"-5", b"-1_0"])
+        lines.append(b"   8      16 sdb " + b" ".join(nums))
+    elif fam == "unispace":
+        # a Unicode space inside a device name: str.split() cuts the name there (outside the byte-level model)
+        lines.append(disk_line(8, 32, rng.choice([b"sd\xc2\xa0b", b"\xe2\x80\x83sdb", b"sdb\xe3\x80\x80"]),
+                               distinct_row(rng, 11, "small", 7)))
     elif fam == "dotname":
         lines.append(disk_line(8, 32, rng.choice([b".", b"..", b"...", b"!", b"a!b", b"a/b"]), distinct_row(rng, 11, "small", 7)))
         sys = sys + [b"a!b"] if rng.random() < 0.5 else sys
     data = end.join(lines) + (b"" if fam == "nofinalnl" or not lines else end)
     return {"op": "diskraw", "file": data.hex(), "sysblock": [s.hex() for s in sys], "perdisk": rng.random() < 0.5}, \
         {"fam": fam}
+
+
+# ---- /sys/block worlds (read_sysfs, source selection, NotImplementedError)
+
+def hx(b):
+    return bytes(b).hex()
+
+
+def node(name, files=(), subs=()):
+    return {"name": hx(name), "files": [[hx(a), hx(b)] for a, b in files], "subs": list(subs)}
+
+
+def gen_attr_dirs(rng):
+    """attribute directories of a block device: no file called `stat` anywhere below"""
+    pool = [
+        lambda: node(b"queue", [(b"scheduler", b"[none] mq-deadline\n"), (b"iostats", b"1\n"), (b"nr_requests", b"256\n")],
+                     [node(b"iosched", [(b"fifo_batch", b"16\n")])] if rng.random() < 0.5 else []),
+        lambda: node(b"holders"),
+        lambda: node(b"slaves"),
+        lambda: node(b"power", [(b"runtime_status", b"unsupported\n"), (b"control", b"auto\n")]),
+        lambda: node(b"mq", [], [node(b"0", [(b"cpu_list", b"0, 1\n")], [node(b"cpu0"), node(b"cpu1")])]),
+        lambda: node(b"integrity", [(b"format", b"none\n"), (b"stats", b"1 2 3 4 5 6 7 8 9 10 11\n")]),
+        lambda: node(b"trace", [(b"enable", b"0\n"), (b"stat_", b"7 7 7 7 7 7 7 7 7 7 7\n")]),
+    ]
+    return [f() for f in rng.sample(pool, rng.randrange(0, 4))]
+
+
+def gen_other_files(rng, major, minor):
+    pool = [(b"dev", b"%d:%d\n" % (major, minor)), (b"size", b"%d\n" % rng.randrange(1, 10**9)), (b"ro", b"0\n"),
+            (b"removable", b"0\n"), (b"inflight", b"       0        3\n"), (b"uevent", b"MAJOR=%d\nMINOR=%d\n" % (major, minor)),
+            (b"stat.old", b"1 2 3 4 5 6 7 8 9 10 11\n"), (b"Stat", b"9 9 9 9 9 9 9 9 9 9 9\n"), (b"alignment_offset", b"0\n")]
+    return [[hx(a), hx(b)] for a, b in rng.sample(pool, rng.randrange(0, 5))]
+
+
+def gen_sysfs_case(rng):
+    """a kernel state presented through /sys/block (and, in a third of the cases, through /proc/diskstats too)"""
+    procfs = rng.random() < 0.3
+    r = rng.random()
+    ndisks = 0 if r < 0.06 else (1 if r < 0.25 else rng.randrange(2, 6))
+    style = rng.choice(["tiny", "small", "mid", "big", "big"])
+    # one kernel = one stat layout: 11, 15, 17 fields; other extensions only where /proc/diskstats is not rendered
+    extlen = rng.choice([0, 4, 6, 6] + ([9] if procfs else [1, 2, 3, 5, 9]))
+    bases = rng.sample(DISK_BASES, ndisks)
+    disks = []
+    salt = 0
+    nparts_total = 0
+    for base in bases:
+        major = rng.choice([3, 8, 65, 179, 253, 259, 7])
+        minor = rng.choice([0, 16, 32])
+        row = distinct_row(rng, 11 + extlen, style, salt)
+        salt += 1
+        parts = []
+        for i in range(1, rng.choice([0, 0, 1, 2, 3]) + 1):
+            prow = distinct_row(rng, 11 + extlen, style, salt)
+            salt += 1
+            parts.append({"minor": minor + i, "name": hx(part_name(base, i)), "s": prow[:11], "ext": prow[11:],
+                          "others": gen_other_files(rng, major, minor + i), "attrs": gen_attr_dirs(rng) if rng.random() < 0.4 else []})
+        nparts_total += len(parts)
+        disks.append({"major": major, "minor": minor, "name": hx(base), "s": row[:11], "ext": row[11:],
+                      "others": gen_other_files(rng, major, minor), "attrs": gen_attr_dirs(rng), "parts": parts})
+    return {"op": "sysfs", "disks": disks, "procfs": procfs, "perdisk": rng.random() < 0.5}, \
+        {"n": ndisks + nparts_total, "style": style, "fields": 11 + extlen, "parts": nparts_total,
+         "slash": any(b"/" in b for b in bases)}
+
+
+def stat_text(vals, sep=b" ", end=b"\n", width=8):
+    return sep.join((b"%d" % v).rjust(width) if isinstance(v, int) else v for v in vals) + end
+
+
+def gen_sysfsraw_case(rng):
+    """malformed / corner-case worlds (model-only comparison; the specification speaks only about the world with
+    neither source)"""
+    fam = rng.choice(["neither", "nosys", "short", "ten", "nonnum", "nonnum-late", "signed", "negative", "deepstat",
+                      "dupname", "nostat", "emptystat", "crlf", "tabs", "unispace", "statdir", "both-bad-sys", "emptysys"])
+    good = [rng.randrange(1, 1000) for _ in range(rng.choice([11, 15, 17]))]
+    diskstats = None
+    sda = lambda stat, subs=(): node(b"sda", [(b"dev", b"8:0\n")] + ([(b"stat", stat)] if stat is not None else []), subs)
+    sdb = node(b"sdb", [(b"stat", stat_text([rng.randrange(1, 99) for _ in range(11)]))])
+    tree = [sda(stat_text(good), [node(b"sda1", [(b"stat", stat_text([v + 1 for v in good]))]), node(b"queue", [(b"x", b"1\n")])]), sdb]
+    if fam == "neither":
+        tree = None
+    elif fam == "nosys":
+        tree = None
+        diskstats = disk_line(8, 0, b"sda", distinct_row(rng, 11, "small", 1)) + b"\n"
+    elif fam == "short":
+        tree[0] = sda(stat_text(good[:rng.randrange(0, 10)]))
+    elif fam == "ten":
+        tree[0] = sda(stat_text(good[:10]))
+    elif fam == "nonnum":
+        g = list(good)
+        g[rng.randrange(0, 10)] = rng.choice([b"x", b"1x", b"0x10", b"1.5", b"--1", b"1__0", b"_1", b"1_", b"+"])
+        tree[0] = sda(stat_text(g))
+    elif fam == "nonnum-late":
+        g = list(good)
+        g[rng.randrange(10, len(g))] = rng.choice([b"x", b"-5", b"1.5"])
+        tree[0] = sda(stat_text(g))
+    elif fam == "signed":
+        g = list(good)
+        for _ in range(3):
+            g[rng.randrange(0, 10)] = rng.choice([b"+5", b"1_000", b"007", b"-0", b"+0_0", b"0_1"])
+        tree[0] = sda(stat_text(g))
+    elif fam == "negative":
+        g = list(good)
+        g[rng.randrange(0, 10)] = rng.choice([b"-5", b"-1_0"])
+        tree[0] = sda(stat_text(g))
+    elif fam == "deepstat":
+        tree[0] = sda(stat_text(good), [node(b"queue", [(b"stat", stat_text([v + 5 for v in good]))],
+                                             [node(b"inner", [(b"stat", stat_text([v + 9 for v in good]))])])])
+    elif fam == "dupname":
+        # the same base name twice: the later one in listing order overwrites the earlier
+        tree = [sda(stat_text(good), [node(b"sdb", [(b"stat", stat_text([v + 7 for v in good]))])]), sdb,
+                node(b"sdc", [(b"stat", stat_text(good[::-1]))], [node(b"sda", [(b"stat", stat_text([v + 3 for v in good]))])])]
+    elif fam == "nostat":
+        tree[0] = sda(None, [node(b"sda1", [(b"stat", stat_text(good))])])
+    elif fam == "emptystat":
+        tree[0] = sda(rng.choice([b"", b"\n", b"   \n"]))
+    elif fam == "crlf":
+        tree[0] = sda(stat_text(good, end=rng.choice([b"\r\n", b"\r", b"", b"\n\n", b" \n"])))
+    elif fam == "tabs":
+        tree[0] = sda(stat_text(good, sep=rng.choice([b"\t", b"  ", b" \x1f ", b"\x0c"]), width=1))
+    elif fam == "unispace":
+        tree[0] = sda(stat_text(good, sep=rng.choice([b"\xc2\xa0", b"\xe2\x80\x83", b" \xe3\x80\x80"]), width=1))
+    elif fam == "statdir":
+        tree[0] = node(b"sda", [(b"dev", b"8:0\n")], [node(b"stat", [(b"stat", stat_text(good))])])
+    elif fam == "both-bad-sys":
+        tree[0] = sda(b"garbage\n")
+        diskstats = disk_line(8, 0, b"sda", distinct_row(rng, 11, "small", 1)) + b"\n" + \
+            disk_line(8, 1, b"sda1", distinct_row(rng, 11, "small", 2)) + b"\n"
+    elif fam == "emptysys":
+        tree = []
+    return {"op": "sysfsraw", "tree": tree, "diskstats": None if diskstats is None else diskstats.hex(),
+            "perdisk": rng.random() < 0.5}, {"fam": fam}
+
+
+INT_ALPHABET = b"+-_019x \x1f"
+
+
+def int_ops():
+    """every token of length <= 4 over an alphabet of sign, underscore, digits, a letter and two blanks, plus a
+    hand-picked list: Python's int() against Base/C09Int.pyInt?"""
+    toks = [b""]
+    layer = [b""]
+    for _ in range(4):
+        layer = [t + bytes([c]) for t in layer for c in INT_ALPHABET]
+        toks += layer
+    extra = [b"18446744073709551615", b"000000000000000000000", b"1_2_3_4_5", b"+1_2", b"-1_2", b"1__2", b"12_", b"\t12\n",
+             b"\x0b\x0c12\r", b"\x1c12\x1d", b"1 2", b"+ 1", b"0b1", b"0o7", b"0x1f", b"1e3", b"1.0", b"inf", b"9" * 60,
+             b"\xd9\xa1\xd9\xa2", b"\xc2\xa012", b"12\xe2\x80\x83", b"\xff1", b"1\xc2\xb2"]
+    return [({"op": "int", "toks": [t.hex() for t in toks + extra]}, {"n": len(toks) + len(extra)})]
+
 
 
 def gen_usage_case(rng):
@@ -898,8 +1318,18 @@ def features(op, meta):
             f.add("layout:" + x)
         if len(meta.get("layouts", [])) > 1:
             f.add("disk:mixed-layouts")
-    elif op["op"] in ("netraw", "diskraw"):
+    elif op["op"] in ("netraw", "diskraw", "sysfsraw"):
         f.add(op["op"] + ":" + meta["fam"])
+    elif op["op"] == "sysfs":
+        f.add("sysfs:" + ("perdisk" if op["perdisk"] else "total"))
+        f.add("sysfs:source=" + ("procfs (both exist)" if op["procfs"] else "sysfs (no /proc/diskstats)"))
+        f.add("sysfs:stat-fields=%d" % meta.get("fields", 0))
+        if not op["disks"]:
+            f.add("sysfs:empty")
+        if meta.get("parts"):
+            f.add("sysfs:disks+partitions")
+        if meta.get("slash"):
+            f.add("sysfs:slash-name")
     elif op["op"] == "usage":
         f.add("usage:" + meta["fam"])
     return f
@@ -931,6 +1361,10 @@ def run_ops(ctx, impl, ops):
     CH = 400
     for a in range(0, len(ops), CH):
         chunk = ops[a:a + CH]
+        for o in chunk:
+            # raw /sys/block trees are built first and handed to the model in the order the OS lists them
+            if o["op"] == "sysfsraw" and not (o.get("_sysdir") and os.path.isdir(o["_sysdir"])):
+                o["_sysdir"], o["tree"] = impl.materialise(o["tree"])
         answers = drv.batch([{k: v for k, v in o.items() if not k.startswith("_")} for o in chunk])
         for o, ans in zip(chunk, answers):
             if "bad" in ans:
@@ -947,12 +1381,21 @@ def run_ops(ctx, impl, ops):
                 im = impl.disk(bytes.fromhex(o["file"]), [bytes.fromhex(x) for x in o["sysblock"]], o["perdisk"], nowrap)
             elif kind == "usage":
                 im = impl.usage(o["st"])
+            elif kind == "sysfs":
+                im = impl.disk_world(None if ans["file"] is None else bytes.fromhex(ans["file"]), ans["tree"],
+                                     o["perdisk"], nowrap)
+            elif kind == "sysfsraw":
+                im = impl.disk_world(None if o["diskstats"] is None else bytes.fromhex(o["diskstats"]), o["tree"],
+                                     o["perdisk"], nowrap, sysdir=o.get("_sysdir"))
+            elif kind == "int":
+                im = impl.ints([bytes.fromhex(x) for x in o["toks"]])
             elif kind == "storage":
                 im = impl.storage([bytes.fromhex(x) for x in o["sysblock"]], [bytes.fromhex(x) for x in o["names"]])
             else:
                 raise ValueError(kind)
-            outs.append((im, canon_model(ans.get("model")) if kind not in ("usage", "storage") else ans.get("model"),
-                         canon_model(ans.get("spec")) if kind not in ("usage", "storage") else ans.get("spec"), ans))
+            plain = kind in ("usage", "storage", "int")
+            outs.append((im, ans.get("model") if plain else canon_model(ans.get("model")),
+                         ans.get("spec") if plain else canon_model(ans.get("spec")), ans))
     return outs, len(ops)
 
 
@@ -962,6 +1405,11 @@ def judge(op, im, mo, sp):
         if sp is not None and not usage_agrees(im, sp):
             return "spec"
         return None if usage_agrees(im, mo) else "model"
+    if op["op"] == "int":
+        bad = [i for i, (a, b) in enumerate(zip(im, mo)) if b != "unmodelled" and a != b]
+        return "model" if bad or len(im) != len(mo) else None
+    if isinstance(mo, dict) and mo.get("kind") == "unmodelled":
+        return None         # outside the model's domain (negative int(), non-ASCII token, Unicode space): counted, not judged
     if sp is not None and im != sp:
         return "spec"
     if im != mo:
@@ -1029,6 +1477,24 @@ def corpus_ops():
         # only partitions listed: total is None
         ops.append(({"op": "disk", "perdisk": per, "devs": [dev(8, 1, b"sda1", True, {"k": "full", "s": s, "ext": []})]},
                     {"n": 1, "layouts": ["full0"], "whole": 0}))
+        # /sys/block only (read_sysfs): a plain disk with two partitions and attribute directories, a cciss disk
+        # (directory `cciss!c0d0`) with a partition; then the same state with /proc/diskstats present too
+        sd = lambda ext: [
+            {"major": 8, "minor": 0, "name": b"sda".hex(), "s": s, "ext": ext, "others": [[b"dev".hex(), b"8:0\n".hex()]],
+             "attrs": [node(b"queue", [(b"iostats", b"1\n")]), node(b"holders")],
+             "parts": [{"minor": 1, "name": b"sda1".hex(), "s": [20 + x for x in s], "ext": ext, "others": [],
+                        "attrs": [node(b"power", [(b"control", b"auto\n")])]},
+                       {"minor": 2, "name": b"sda2".hex(), "s": [40 + x for x in s], "ext": ext, "others": [], "attrs": []}]},
+            {"major": 104, "minor": 0, "name": b"cciss/c0d0".hex(), "s": [60 + x for x in s], "ext": ext, "others": [], "attrs": [],
+             "parts": [{"minor": 1, "name": b"cciss/c0d0p1".hex(), "s": [80 + x for x in s], "ext": ext, "others": [],
+                        "attrs": []}]}]
+        for ext in ([], [101, 102, 103, 104], [101, 102, 103, 104, 105, 106]):
+            for procfs in (False, True):
+                ops.append(({"op": "sysfs", "disks": sd(ext), "procfs": procfs, "perdisk": per},
+                            {"n": 5, "fields": 11 + len(ext), "parts": 3, "slash": True}))
+        ops.append(({"op": "sysfs", "disks": [], "procfs": False, "perdisk": per}, {"n": 0, "fields": 11, "parts": 0}))
+        # neither source: NotImplementedError
+        ops.append(({"op": "sysfsraw", "tree": None, "diskstats": None, "perdisk": per}, {"fam": "neither"}))
     return ops
 
 
@@ -1055,6 +1521,12 @@ def exhaustive_ops():
     for k in range(0, 4):
         body = [H1, H2, H1][:k] + [render_net_line(b"lo", list(range(1, 17))), render_net_line(b"eth0", list(range(21, 37)))]
         ops.append(({"op": "netraw", "file": (b"\n".join(body) + b"\n").hex(), "pernic": True}, {"fam": "noheader"}))
+    # every number of fields 0..20 in a /sys/block/<dev>/stat file (fewer than ten: ValueError; more: ignored)
+    for n in range(0, 21):
+        for per in (True, False):
+            tree = [node(b"sda", [(b"stat", stat_text(list(range(1, n + 1))))], [node(b"sda1", [(b"stat", stat_text(list(range(31, 48))))])])]
+            ops.append(({"op": "sysfsraw", "tree": tree, "diskstats": None, "perdisk": per}, {"fam": "short" if n < 10 else "ten"}))
+    ops += int_ops()
     return ops
 
 
@@ -1073,7 +1545,8 @@ def correspond(ctx, res):
     impl = Impl(ctx)
     try:
         res.rule = ("cases = one call of psutil.net_io_counters / disk_io_counters / disk_usage over a generated "
-                    "/proc/net/dev, /proc/diskstats (+/sys/block) or statvfs result; non-trivial = at least one "
+                    "/proc/net/dev, /proc/diskstats (+/sys/block), /sys/block tree without /proc/diskstats, or statvfs result "
+                    "(plus one case comparing int() with the model's int on a token list); non-trivial = at least one "
                     "interface/device line is parsed (or an exception / None / {} is the promised outcome for a "
                     "non-empty file) resp. a statvfs record with blocks > 0; distinct = distinct canonical inputs")
         ops = []
@@ -1085,17 +1558,21 @@ def correspond(ctx, res):
         n = ctx.n(1000, 50000)
         for i in range(n):
             r = i % 20
-            if r < 7:
+            if r < 5:
                 o, m = gen_disk_case(ctx.rng)
-            elif r < 12:
+            elif r < 9:
                 o, m = gen_net_case(ctx.rng)
-            elif r < 14:
+            elif r < 13:
+                o, m = gen_sysfs_case(ctx.rng)
+            elif r < 15:
+                o, m = gen_sysfsraw_case(ctx.rng)
+            elif r < 17:
                 o, m = gen_diskraw_case(ctx.rng)
-            elif r < 16:
+            elif r < 18:
                 o, m = gen_netraw_case(ctx.rng)
             else:
                 o, m = gen_usage_case(ctx.rng)
-            if o["op"] in ("net", "disk", "netraw", "diskraw") and ctx.rng.random() < 0.1:
+            if o["op"] in ("net", "disk", "netraw", "diskraw", "sysfs", "sysfsraw") and ctx.rng.random() < 0.1:
                 o["_nowrap"] = True      # first call after cache_clear(): nowrap=True must return the same
             ops.append((o, m, "random"))
         results, nlines = run_ops(ctx, impl, [o for o, _, _ in ops])
@@ -1109,9 +1586,20 @@ def correspond(ctx, res):
                     res.disagree("model", o, im, mo, None, note="real is_storage_device on the redirected /sys/block "
                                  "differs from the model")
                 continue
+            if o["op"] == "int":
+                res.case({"op": "int", "n": m["n"]}, nontrivial=True)
+                res.count("int() tokens compared", m["n"])
+                res.count("int() tokens outside the model (non-ASCII)", sum(1 for x in mo if x == "unmodelled"))
+                if judge(o, im, mo, sp) is not None:
+                    bad = [(t, a, b) for t, a, b in zip(o["toks"], im, mo) if b != "unmodelled" and a != b][:5]
+                    res.disagree("model", {"op": "int", "toks": [t for t, _, _ in bad]}, [a for _, a, _ in bad],
+                                 [b for _, _, b in bad], None, note="Python's int() differs from Base/C09Int.pyInt?")
+                continue
             feats = features(o, m)
             for f in feats:
                 res.count(f)
+            if isinstance(mo, dict) and mo.get("kind") == "unmodelled":
+                res.count("outside the model (negative int / non-ASCII token / Unicode space): not judged")
             if o.get("_nowrap"):
                 res.count("nowrap=True after cache_clear")
             if isinstance(im, dict) and im.get("kind"):
@@ -1119,8 +1607,8 @@ def correspond(ctx, res):
             if "n" in m:
                 res.count("size:%s" % ("0" if m["n"] == 0 else "1" if m["n"] == 1 else "2-8" if m["n"] <= 8 else "9-40"))
             nontrivial = (o["op"] == "usage" and o["st"][2] > 0) or \
-                         (o["op"] in ("net", "disk") and m.get("n", 0) > 0) or \
-                         (o["op"] in ("netraw", "diskraw") and len(o["file"]) > 0)
+                         (o["op"] in ("net", "disk", "sysfs") and m.get("n", 0) > 0) or \
+                         (o["op"] in ("netraw", "diskraw") and len(o["file"]) > 0) or o["op"] == "sysfsraw"
             res.case(o, nontrivial=nontrivial,
                      sample={"input": o, "impl": im} if src == "random" and len(res.samples) < 5 and nontrivial else None)
             verdict = judge(o, im, mo, sp)
@@ -1140,8 +1628,11 @@ def correspond(ctx, res):
                 res.disagree("model", o, im, mo, sp, note="implementation differs from the Lean model", finding=fid)
         res.exhaustive = ("%d cases: every field count 0..25 of a /proc/diskstats line (alone / after a valid line, "
                           "perdisk both ways), every counter count 0..20 of a /proc/net/dev line, every header-line "
-                          "count 0..3; the table/usage cases are samples") % n_exh
+                          "count 0..3, every field count 0..20 of a /sys/block/<dev>/stat file (perdisk both ways), int() on every "
+                          "token of length <= 4 over the alphabet '+-_019x', blank, 0x1f (7381 tokens, one case); the "
+                          "table/usage cases are samples") % n_exh
         res.extra["access_redirects"] = impl.access_log
+        res.extra["sysfs_redirects (exists/listdir/walk of /sys/block)"] = impl.sysfs_log
         res.extra["live_renderer_check"] = live_check(ctx, impl, res)
     finally:
         impl.close()
@@ -1203,7 +1694,7 @@ def _fails(ctx, impl, op):
 
 def shrink(ctx, d):
     op = d["input"]
-    key = {"net": "ifs", "disk": "devs"}.get(op.get("op"))
+    key = {"net": "ifs", "disk": "devs", "sysfs": "disks"}.get(op.get("op"))
     if key is None or len(op[key]) < 2:
         return d
     impl = Impl(ctx)
